@@ -398,3 +398,12 @@ Definition count_configs (s : scenario) : nat :=
   | Some w0 => explore_count (map api (sc_calls s)) sched_fuel [init_cfg (map api (sc_calls s)) w0] 0
   | None => 0
   end.
+
+Lemma count_configs_spec : forall s n,
+  count_configs s = n -> n <> 0 ->
+  exists w0, start_world s = Some w0 /\
+             explore_count (map api (sc_calls s)) sched_fuel [init_cfg (map api (sc_calls s)) w0] 0 = n.
+Proof.
+  intros s n H Hn. unfold count_configs in H.
+  destruct (start_world s) as [w0|]; [exists w0; split; [reflexivity | exact H] | congruence].
+Qed.
